@@ -134,11 +134,14 @@ Theorem C07_defer_spread_refuted :
 Proof. exact defer_spread_refuted. Qed.
 Print Assumptions C07_defer_spread_refuted.
 
-Theorem C07_defer_callback_refuted :
-  y_bind S2H cx_deferred_hold [t_cb] false MPlain [v_cb] = [VBad (s "timeout")]
-  /\ g_bind [t_cb] false MPlain [v_cb] = [v_cb].
-Proof. exact defer_callback_refuted. Qed.
-Print Assumptions C07_defer_callback_refuted.
+(** Regression (was C07_defer_callback_refuted until abe7a69): a deferred host call that calls back a
+    closure held in a variable binds its arguments like any other call. *)
+Theorem C07_defer_callback_regression :
+  bind_side S2H cx_deferred [t_cb] false MPlain [v_cb] = true
+  /\ vals_eqb (y_bind S2H cx_deferred [t_cb] false MPlain [v_cb]) (g_bind [t_cb] false MPlain [v_cb]) = true
+  /\ call (hd VNil (y_bind S2H cx_deferred [t_cb] false MPlain [v_cb])) [VInt 2] = [VStr (s "two")].
+Proof. exact defer_callback_regression. Qed.
+Print Assumptions C07_defer_callback_regression.
 
 Theorem C07_negzero_refuted :
   y_bind S2S cx0 [TFloat 64; TInt 64] false MPlain [neg0; VInt 42] = [VFloat 0; VInt 42]
